@@ -501,7 +501,7 @@ func v19LanceroBody(r *vexp.Runner, lc v19LanceroCase, fileLimit int) func(x *ve
 
 type v19Producer struct{ pk []*packets.Packet }
 
-func (p *v19Producer) ReadAllPackets() ([]*packets.Packet, error)               { return nil, nil }
+func (p *v19Producer) ReadAllPackets() ([]*packets.Packet, error)             { return nil, nil }
 func (p *v19Producer) samplePackets(time.Duration) ([]*packets.Packet, error) { return p.pk, nil }
 func (p *v19Producer) start() error                                           { return nil }
 func (p *v19Producer) discardStale() error                                    { return nil }
